@@ -379,8 +379,39 @@ def prop_twice(kc):
         now = snapshot(scheme)
         for part in ("parameters", "model", "data"):
             check(now[part] == snap[part], f"twice.inputs_{part}_changed", lambda: f"{method}")
+        # a Result does not share objects with the caller's scheme: while the caller prepares the next run (fixed values changed, standard
+        # errors set) the first result stays what it was; everything is put back before the second run
+        r1_before = {p.label: (p.value, p.standard_error, p.vary) for p in r1.optimized_parameters.all()}
+        undo = []
+        for p in scheme.parameters.all():
+            if p.expression is None and not p.vary:
+                undo.append((p, "value", p.value))
+                p.value = p.value * 1.25 + 0.125
+            if p.expression is None and p.vary:
+                undo.append((p, "standard_error", p.standard_error))
+                p.standard_error = 0.321
+        r1_after = {p.label: (p.value, p.standard_error, p.vary) for p in r1.optimized_parameters.all()}
+        same_par = all((a == b) or (a != a and b != b) for lab in r1_before for a, b in zip(r1_before[lab], r1_after[lab]))
+        check(same_par, "twice.earlier_result_shares_parameters_with_the_scheme",
+              lambda: f"{[(lab, r1_before[lab], r1_after[lab]) for lab in r1_before if r1_before[lab] != r1_after[lab] and not (r1_before[lab][1] != r1_before[lab][1])][:3]}")
+        for p, attr, val in undo:
+            setattr(p, attr, val)
         with expect_ok("twice.second_run"):
             r2 = optimize(scheme, verbose=False, raise_exception=True)
+        # ... and the other way round: the second run does not rewrite the first result (standard errors, values)
+        r1_later = {p.label: (p.value, p.standard_error, p.vary) for p in r1.optimized_parameters.all()}
+        same_par = all((a == b) or (a != a and b != b) for lab in r1_before for a, b in zip(r1_before[lab], r1_later[lab]))
+        check(same_par, "twice.earlier_result_changed_by_the_second_run", lambda: f"{[(lab, r1_before[lab], r1_later[lab]) for lab in r1_before][:3]}")
+        # ... nor does continuing from the first result (optimize(result.get_scheme()))
+        try:
+            optimize(r1.get_scheme(), verbose=False, raise_exception=True)
+            continued = True
+        except Exception:  # noqa: BLE001  (a continued run may legitimately fail: only its effect on r1 is decided here)
+            continued = False
+        r1_later = {p.label: (p.value, p.standard_error, p.vary) for p in r1.optimized_parameters.all()}
+        same_par = all((a == b) or (a != a and b != b) for lab in r1_before for a, b in zip(r1_before[lab], r1_later[lab]))
+        check(same_par, "twice.earlier_result_changed_by_a_continued_run",
+              lambda: f"{[(lab, r1_before[lab], r1_later[lab]) for lab in r1_before if r1_before[lab] != r1_later[lab]][:3]}")
         now = snapshot(scheme)
         for part in ("parameters", "model", "data"):
             check(now[part] == snap[part], f"twice.inputs_{part}_changed", lambda: f"{method} (second run)")
